@@ -55,7 +55,10 @@ fn orders(functional: bool, specs: &[Spec], all: bool) -> Vec<Case> {
     let mut sorted = specs.to_vec();
     sorted.sort();
     if all {
-        case::permutations(&sorted).iter().map(|p| Case::of_specs(functional, p)).collect()
+        case::permutations(&sorted)
+            .iter()
+            .map(|p| Case::of_specs(functional, p))
+            .collect()
     } else {
         let mut rev = sorted.clone();
         rev.reverse();
@@ -124,7 +127,8 @@ fn pattern_family(
     for st in structures {
         for lp in label_patterns {
             for cp in conf_patterns {
-                let mut specs: Vec<Spec> = (0..st.len()).map(|i| spec(st[i], lp[i], cp[i])).collect();
+                let mut specs: Vec<Spec> =
+                    (0..st.len()).map(|i| spec(st[i], lp[i], cp[i])).collect();
                 specs.sort();
                 if seen.insert(specs.clone()) {
                     out.push(orders(functional, &specs, all_orders));
@@ -148,7 +152,13 @@ fn stages(tier: Tier) -> Vec<Stage> {
     let all_ev: Vec<u8> = (0..8).collect();
     let confs = [0u8, 3, 6, 9];
     let quick = tier == Tier::Quick;
-    let cls = |b: bool| if b { " (one per actor/evidence renaming class)" } else { "" };
+    let cls = |b: bool| {
+        if b {
+            " (one per actor/evidence renaming class)"
+        } else {
+            ""
+        }
+    };
     let kind = |f: bool| if f { "functional" } else { "plain" };
     let mut v = Vec::new();
     // n = 0, 1: every letter, both predicates, both values
@@ -167,9 +177,19 @@ fn stages(tier: Tier) -> Vec<Stage> {
     if quick {
         let s2 = structure_multisets(2, true, 3);
         v.push(Stage {
-            name: format!("n=2 plain: {} structure pairs{} x every stance pair x every confidence pair", s2.len(), cls(true)),
+            name: format!(
+                "n=2 plain: {} structure pairs{} x every stance pair x every confidence pair",
+                s2.len(),
+                cls(true)
+            ),
             n: 2,
-            groups: pattern_family(false, &s2, &words(&[T_S, T_R, T_U], 2), &words(&confs, 2), true),
+            groups: pattern_family(
+                false,
+                &s2,
+                &words(&[T_S, T_R, T_U], 2),
+                &words(&confs, 2),
+                true,
+            ),
             queries: q3.clone(),
         });
         v.push(Stage {
@@ -182,7 +202,11 @@ fn stages(tier: Tier) -> Vec<Stage> {
         for functional in [false, true] {
             let l = letters(&[false, true], &all_ev, &confs);
             v.push(Stage {
-                name: format!("n=2 {}: all multisets over {} letters", kind(functional), l.len()),
+                name: format!(
+                    "n=2 {}: all multisets over {} letters",
+                    kind(functional),
+                    l.len()
+                ),
                 n: 2,
                 groups: full_family(functional, &l, 2),
                 queries: if functional { q1.clone() } else { q3.clone() },
@@ -193,15 +217,28 @@ fn stages(tier: Tier) -> Vec<Stage> {
     let s3 = structure_multisets(3, quick, 3);
     let conf3: Vec<Vec<u8>> = tier.pick(vec![vec![3, 6, 9]], vec![vec![3, 6, 9], vec![0, 9, 3]]);
     let plain3: Vec<Vec<Label>> = if quick {
-        // both sides in every split, plus an uncertain assertion in every position (it must not bridge)
-        let mut p = words(&[T_S, T_R], 3);
-        p.extend([vec![T_U, T_S, T_S], vec![T_S, T_U, T_S], vec![T_S, T_S, T_U]]);
-        p
+        // one side; one opposing or one uncertain assertion in every position (it must not bridge the other two)
+        vec![
+            vec![T_S, T_S, T_S],
+            vec![T_R, T_R, T_R],
+            vec![T_R, T_S, T_S],
+            vec![T_S, T_R, T_S],
+            vec![T_S, T_S, T_R],
+            vec![T_U, T_S, T_S],
+            vec![T_S, T_U, T_S],
+            vec![T_S, T_S, T_U],
+        ]
     } else {
         words(&[T_S, T_R, T_U], 3)
     };
     v.push(Stage {
-        name: format!("n=3 plain: {} structure multisets{} x {} stance patterns x {} confidence patterns", s3.len(), cls(quick), plain3.len(), conf3.len()),
+        name: format!(
+            "n=3 plain: {} structure multisets{} x {} stance patterns x {} confidence patterns",
+            s3.len(),
+            cls(quick),
+            plain3.len(),
+            conf3.len()
+        ),
         n: 3,
         groups: pattern_family(false, &s3, &plain3, &conf3, true),
         queries: q1.clone(),
@@ -209,14 +246,24 @@ fn stages(tier: Tier) -> Vec<Stage> {
     let s3f = structure_multisets(3, true, 3);
     let func3: Vec<Vec<Label>> = if quick {
         // opposition mixes rejects and rival supports; plus one supporter between rival supporters
-        let mut p = words(&[T_R, V_S], 3);
-        p.push(vec![V_S, T_S, V_S]);
-        p
+        vec![
+            vec![V_S, V_S, V_S],
+            vec![T_R, V_S, V_S],
+            vec![V_S, T_R, V_S],
+            vec![V_S, V_S, T_R],
+            vec![T_R, T_R, V_S],
+            vec![V_S, T_S, V_S],
+        ]
     } else {
         words(&[T_S, T_R, T_U, V_S, V_R], 3)
     };
     v.push(Stage {
-        name: format!("n=3 functional: {} structure multisets{} x {} value/stance patterns", s3f.len(), cls(true), func3.len()),
+        name: format!(
+            "n=3 functional: {} structure multisets{} x {} value/stance patterns",
+            s3f.len(),
+            cls(true),
+            func3.len()
+        ),
         n: 3,
         groups: pattern_family(true, &s3f, &func3, &conf3[..1], true),
         queries: q1.clone(),
@@ -224,36 +271,47 @@ fn stages(tier: Tier) -> Vec<Stage> {
     // n = 4: one side (that is where components merge), every order
     let s4 = structure_multisets(4, quick, if quick { 2 } else { 3 });
     let conf4 = vec![vec![3u8, 6, 9, 0]];
-    let plain4: Vec<Vec<Label>> = tier.pick(vec![vec![T_S; 4]], vec![vec![T_S; 4], vec![T_S, T_S, T_R, T_S]]);
+    let plain4: Vec<Vec<Label>> = tier.pick(
+        vec![vec![T_S; 4]],
+        vec![vec![T_S; 4], vec![T_S, T_S, T_R, T_S]],
+    );
     v.push(Stage {
         name: format!(
             "n=4 plain: {} structure multisets{}{} x {} stance patterns",
             s4.len(),
             cls(quick),
-            if quick { " citing at most 2 distinct evidence ids" } else { "" },
+            if quick {
+                " citing at most 2 distinct evidence ids"
+            } else {
+                ""
+            },
             plain4.len()
         ),
         n: 4,
         groups: pattern_family(false, &s4, &plain4, &conf4, true),
         queries: q1.clone(),
     });
-    let s4f = structure_multisets(4, true, if quick { 2 } else { 3 });
-    v.push(Stage {
+    let s4f = structure_multisets(4, true, 3);
+    if !quick {
+        v.push(Stage {
         name: format!(
-            "n=4 functional: {} structure multisets{}{}, opposition = 2 rejects + 2 rival supports",
+            "n=4 functional: {} structure multisets{}, opposition = 2 rejects + 2 rival supports",
             s4f.len(),
-            cls(true),
-            if quick { " citing at most 2 distinct evidence ids" } else { "" }
+            cls(true)
         ),
         n: 4,
         groups: pattern_family(true, &s4f, &[vec![V_S, T_R, V_S, T_R]], &conf4, true),
         queries: q1.clone(),
     });
+    }
     if !quick {
         // n = 5: laws that need no permutation: sorted + reversed order only
         let s5 = structure_multisets(5, false, 3);
         v.push(Stage {
-            name: format!("n=5 plain: {} structure multisets, all supporting, sorted and reversed order only", s5.len()),
+            name: format!(
+                "n=5 plain: {} structure multisets, all supporting, sorted and reversed order only",
+                s5.len()
+            ),
             n: 5,
             groups: pattern_family(false, &s5, &[vec![T_S; 5]], &[vec![3, 6, 9, 0, 6]], false),
             queries: q1.clone(),
@@ -264,7 +322,12 @@ fn stages(tier: Tier) -> Vec<Stage> {
 
 fn nontrivial(case: &Case) -> bool {
     let specs = case.specs();
-    let count = |side: SideOf| specs.iter().filter(|s| oracle::side_of(case.functional, s) == side).count();
+    let count = |side: SideOf| {
+        specs
+            .iter()
+            .filter(|s| oracle::side_of(case.functional, s) == side)
+            .count()
+    };
     count(SideOf::Support) >= 2 || count(SideOf::Opposition) >= 2
 }
 
@@ -304,7 +367,8 @@ fn never_stored(run: &mut Run) {
 fn main() {
     let mut run = Run::from_args("C20", "grouping", "exploration");
     if let Some(file) = run.replay_file.clone() {
-        let doc: serde_json::Value = serde_json::from_slice(&std::fs::read(&file).expect("read replay")).expect("json");
+        let doc: serde_json::Value =
+            serde_json::from_slice(&std::fs::read(&file).expect("read replay")).expect("json");
         if doc["replay"]["relation"] == "never-stored" {
             never_stored(&mut run);
         } else {
@@ -321,6 +385,8 @@ fn main() {
     let mut summaries: HashMap<(bool, Vec<Spec>), Summary> = HashMap::new();
     let mut completed_n = 0usize;
     let mut capped = false;
+    let mut stage_log: Vec<serde_json::Value> = Vec::new();
+    let mut samples_offered = 0u64;
     never_stored(&mut run);
 
     for stage in stages(run.tier) {
@@ -353,19 +419,28 @@ fn main() {
             compare_within_group: true,
         };
         let t0 = Instant::now();
-        let outcomes: Vec<Outcome> = util::par_map(jobs.into_iter().enumerate().collect(), threads, |(j, groups)| {
-            runner::run_groups(&format!("s{}j{j}", stage.n), &groups, &plan, Some(deadline))
-        });
+        let outcomes: Vec<Outcome> = util::par_map(
+            jobs.into_iter().enumerate().collect(),
+            threads,
+            |(j, groups)| {
+                runner::run_groups(&format!("s{}j{j}", stage.n), &groups, &plan, Some(deadline))
+            },
+        );
         let mut stage_viol: Vec<Violation> = Vec::new();
         let mut stopped = false;
         for o in outcomes {
-            run.add("evaluations", o.evaluations + o.entry_point_checks + o.restab_checks);
+            run.add(
+                "evaluations",
+                o.evaluations + o.entry_point_checks + o.restab_checks + o.order_comparisons,
+            );
             run.add("projections_vs_model", o.evaluations);
             run.add("histories_recorded", o.histories);
             run.add("multisets", o.groups);
             run.add(&format!("multisets_n{}", stage.n), o.groups);
             run.add("entry_point_checks", o.entry_point_checks);
             run.add("reprojection_checks", o.restab_checks);
+            run.add("order_comparisons", o.order_comparisons);
+            run.add("note_other_value_ineligible_not_listed", o.other_value_unlisted);
             run.add("nexus_instances", o.worlds);
             run.add("kml_transactions", o.statements);
             run.add("kql_queries", o.queries);
@@ -377,8 +452,22 @@ fn main() {
                 if nontrivial(&case) {
                     run.distinct(util::fnv64(case.short().as_bytes()));
                 }
-                if case.events.len() == 3 && nontrivial(&case) && s.sg + s.og >= 2 {
+                // written-out cases: three different actors on one side that are NOT three groups
+                let specs = case.specs();
+                let actors = |side: SideOf| {
+                    let mut a: Vec<u8> = specs.iter().filter(|x| oracle::side_of(case.functional, x) == side).map(|x| x.actor).collect();
+                    a.sort();
+                    a.dedup();
+                    a.len() as u64
+                };
+                if case.events.len() >= 3
+                    && ((actors(SideOf::Support) == 3 && s.sg < 3) || (actors(SideOf::Opposition) == 3 && s.og < 3))
+                    && (samples_offered % 97 == 0)
+                {
                     run.sample(json!({"history": case.short(), "support": s.s, "support_groups": s.sg, "opposition": s.o, "opposition_groups": s.og}));
+                }
+                if case.events.len() >= 3 {
+                    samples_offered += 1;
                 }
                 summaries.insert(key(&case), s);
             }
@@ -394,9 +483,13 @@ fn main() {
             n_hist,
             t0.elapsed().as_secs_f64()
         );
+        stage_log.push(json!({"stage": stage.name, "multisets": n_groups, "histories": n_hist, "completed": !stopped, "wall_s": (t0.elapsed().as_secs_f64() * 10.0).round() / 10.0}));
         if stopped {
             capped = true;
-            run.cap_hit(&format!("time budget: stage '{}' stopped early", stage.name));
+            run.cap_hit(&format!(
+                "time budget: stage '{}' stopped early",
+                stage.name
+            ));
         } else if !capped {
             completed_n = completed_n.max(stage.n);
         }
@@ -447,7 +540,9 @@ fn main() {
                 raised_key.sort();
                 if let Some(up) = summaries.get(&(*functional, raised_key)) {
                     run.add("monotone_pairs", 1);
-                    if !oracle::monotone_law(oracle::side_of(*functional, &specs[i]), &after, up).is_empty() {
+                    if !oracle::monotone_law(oracle::side_of(*functional, &specs[i]), &after, up)
+                        .is_empty()
+                    {
                         pair_viol.extend(runner::pair_law(
                             "monotone",
                             &Case::of_specs(*functional, specs),
@@ -467,6 +562,7 @@ fn main() {
     }
 
     run.set("completed_multiset_size", json!(completed_n));
+    run.set("stages", json!(stage_log));
     run.rule(
         "multisets of n assertions (n = 0,1,2: every letter = value v0/v1 x 3 actors x evidence subsets x stance {support,reject,uncertain} x confidence {unstated,.3,.6,.9}; \
          n = 3,4(,5): every structure multiset over 3 actors x 8 evidence subsets [quick: one per actor/evidence renaming class] x listed stance patterns x fixed injective confidence pattern) \
